@@ -63,6 +63,8 @@ class AbstractModel(object):
             out.append('global.' + self.extra['id'])
         if self.assign:
             out.append('global.' + self.assign['id'])
+            # (a derived constant is no output candidate: outputs have to
+            # be states or intermediary variables)
         return out
 
     def is_linear(self):
@@ -98,6 +100,10 @@ class AbstractModel(object):
                      % self.assign['id'])
             x.append('<parameter id="%s" value="1" constant="true"/>'
                      % self.assign['scale'])
+            if self.assign.get('derived'):
+                # a constant derived from another constant (not a parameter)
+                x.append('<parameter id="%s" value="0" constant="false"/>'
+                         % self.assign['derived'][0])
         x.append('</listOfParameters>')
         rules = []
         if self.extra:
@@ -113,10 +119,18 @@ class AbstractModel(object):
         if self.assign:
             a = self.assign
             src = self.comps[a['source']][1]
+            scale = a['scale']
+            if a.get('derived'):
+                did, fac = a['derived']
+                rules.append(
+                    '<assignmentRule variable="%s"><math xmlns="%s"><apply>'
+                    '<times/><cn> %r </cn><ci> %s </ci></apply></math>'
+                    '</assignmentRule>' % (did, MATH, fac, a['scale']))
+                scale = did
             rules.append(
                 '<assignmentRule variable="%s"><math xmlns="%s"><apply>'
                 '<times/><ci> %s </ci><ci> %s </ci></apply></math>'
-                '</assignmentRule>' % (a['id'], MATH, a['scale'], src))
+                '</assignmentRule>' % (a['id'], MATH, scale, src))
         if rules:
             x += ['<listOfRules>'] + rules + ['</listOfRules>']
         x.append('<listOfReactions>')
@@ -197,8 +211,14 @@ class AbstractModel(object):
                 rows.append(Y[len(self.comps)])
             elif self.assign and o == 'global.' + self.assign['id']:
                 j = self.assign['source']
-                rows.append(vals['global.' + self.assign['scale']]
+                fac = self.assign['derived'][1] if self.assign.get(
+                    'derived') else 1.0
+                rows.append(fac * vals['global.' + self.assign['scale']]
                             * Y[j] / size[j])
+            elif self.assign and self.assign.get('derived') and \
+                    o == 'global.' + self.assign['derived'][0]:
+                rows.append(self.assign['derived'][1] * vals[
+                    'global.' + self.assign['scale']] + 0 * Y[0])
             else:
                 raise KeyError(o)
         return np.array(rows)
@@ -287,6 +307,9 @@ def random_model(rng, allow_nonlinear=True):
     if rng.random() < 0.35:
         assign = {'id': pid('eff'), 'scale': pid('sc'),
                   'source': int(rng.integers(nc))}
+        if rng.random() < 0.4:
+            assign['derived'] = (pid('dc'), float(np.round(
+                rng.uniform(0.5, 3.0), 3)))
     return AbstractModel(comps, trans, extra, assign)
 
 
